@@ -18,7 +18,7 @@ PROGRAMS = {
         "body": [("", "ORG", "{o}"), ("BEGIN", "LEAX", "TABLE,PCR"), ("", "LDD", "#{v}"), ("LOOP", "STD", ",X++"),
                  ("", "LDA", "TABLE+2,PCR"), ("", "LBNE", "LOOP"), ("", "LDY", "[VECT,PCR]"), ("", "JSR", "SUB"),
                  ("", "RTS", ""), ("SUB", "CLR", "VECT"), ("", "RTS", ""), ("TABLE", "FDB", "1,2,3"),
-                 ("VECT", "FDB", "$1234"), ("", "FCB", "1,2"), ("LAST", "NOP", "")],
+                 ("VECT", "FDB", "$1234"), ("", "FCB", "1,2"), ("", "FCB", "3,4,"), ("", "FDB", "$10,$20,"), ("LAST", "NOP", "")],
         "abs": {7: "SUB", 9: "VECT"},
     },
     "mixed": {
